@@ -103,12 +103,17 @@ SAFE_METHODS = {
     str: {"encode", "lower", "upper", "startswith", "endswith", "format", "join", "split", "strip", "lstrip",
           "rstrip", "isdigit", "replace", "title", "capitalize"},
     bytes: {"startswith", "endswith", "decode", "join", "lower", "upper"},
-    dict: {"keys", "values", "items", "get", "update", "copy", "setdefault"},
-    set: {"add", "update", "union", "copy"},
-    frozenset: {"union"},
-    list: {"append", "extend", "copy", "index", "count"},
+    dict: {"keys", "values", "items", "get", "update", "copy", "setdefault", "pop", "popitem", "clear", "fromkeys"},
+    set: {"add", "update", "union", "copy", "discard", "remove", "clear", "intersection", "difference", "issubset",
+          "issuperset", "isdisjoint"},
+    frozenset: {"union", "intersection", "difference", "issubset", "issuperset", "isdisjoint"},
+    list: {"append", "extend", "copy", "index", "count", "pop", "insert", "remove", "clear", "sort", "reverse"},
     tuple: {"index", "count"},
 }
+MUTATORS = {"update", "setdefault", "pop", "popitem", "clear", "add", "discard", "remove", "append", "extend", "insert",
+            "sort", "reverse", "__setitem__", "__delitem__"}
+SAFE_TYPE_ATTRS = {dict: {"fromkeys"}, str: {"join", "lower", "upper", "strip", "maketrans"}, bytes: {"fromhex", "join"},
+                   int: {"from_bytes"}}
 _BINOPS = {
     ast.Add: lambda l, r: l + r, ast.Sub: lambda l, r: l - r, ast.Mult: lambda l, r: l * r,
     ast.Mod: lambda l, r: l % r, ast.FloorDiv: lambda l, r: l // r, ast.BitOr: lambda l, r: l | r,
@@ -429,6 +434,8 @@ class Folder:
             for ty, names in SAFE_METHODS.items():
                 if isinstance(v, ty) and n.attr in names:
                     return getattr(v, n.attr)
+            if isinstance(v, type) and n.attr in SAFE_TYPE_ATTRS.get(v, ()):
+                return getattr(v, n.attr)
             raise Unknown("attr %s" % n.attr)
         if isinstance(n, ast.Call):
             f = E(n.func)
@@ -470,7 +477,7 @@ class Folder:
                 e2.update(kw)
                 return self.expr(f.node.body, e2)
             if any(isinstance(a, SymStr) for a in list(args) + list(kw.values())) and not isinstance(f, (Lam, FuncRef)):
-                ok_fn = f in (str,) or (getattr(f, "__name__", "") in ("format", "join") and
+                ok_fn = f in (str, isinstance, type) or (getattr(f, "__name__", "") in ("format", "join") and
                                           isinstance(getattr(f, "__self__", None), str))
                 if not ok_fn:
                     raise Unknown("symbolic text passed to %s" % getattr(f, "__name__", f))
